@@ -67,7 +67,7 @@ class Summary:
 
 
 def field_effect_class(ctx: Ctx, fld: str) -> str:
-    if fld in ("_records", "_id_map", "_bundles", "_attributes"):
+    if fld in ("_records", "_id_map", "_bundles", "_attributes") or fld in (ctx.field_named(M + ".ProvDocument", "bundles", "_bundles"), ctx.field_named(M + ".ProvBundle", "records", "_records")):
         return "CONTENT"
     if fld in ("_identifier", "_document", "_bundle", "parent", "document"):
         return "LINK"
@@ -101,6 +101,8 @@ class Effects:
             "namespace": {"prov.identifier.Namespace"}, "_namespace": {"prov.identifier.Namespace"}, "_default": {"prov.identifier.Namespace"},
             "identifier": {"prov.identifier.QualifiedName"}, "_identifier": {"prov.identifier.QualifiedName"},
         }
+        self.field_elem_types.setdefault(ctx.field_named(M + ".ProvDocument", "bundles", "_bundles"), {M + ".ProvBundle"})
+        self.field_elem_types.setdefault(ctx.field_named(M + ".ProvBundle", "records", "_records"), {M + ".ProvRecord"})
         self.defaultdict_fields = set()
         for cq in self.p.classes:
             for f in field_table(ctx, cq).values():
